@@ -39,7 +39,7 @@ def describe(tier):
     return dict(
         rule="case system: every type of the bounded universe x value alphabet (ramp, extreme, minimal) x every applicable input form "
         "(plain data, 5 ndarray layouts, xobject from same/other buffer/other context/other buffer kind, nested xobjects, string capacity) "
-        "x placement alphabet; one transition = the public constructor; oracle = full read-back through every accessor "
+        "x placement alphabet; array classes made by indexing (ItemType[shape]) and, for a sub-universe, DECLARED as classes with _order absent / 'C' / 'F' / tuple; one transition = the public constructor; oracle = full read-back through every accessor "
         "(attributes, every index tuple, nested handles, to_nplike/to_nparray) equals the value tree. A case is distinct/non-trivial "
         "when (type, resulting object bytes) is new.",
         bounds=dict(universe="U1 (638 arrays, structs of 1-%d leaf fields) + U2 + U3, see xoverif/universe.py" % (2 if tier == "quick" else 3),
@@ -52,7 +52,14 @@ def describe(tier):
 def shards(tier, seed):
     ts = universe.universe(tier, "all+3" if tier == "thorough" else "all")
     ts = ts[seed % len(ts):] + ts[: seed % len(ts)]
-    return cons.chunk(ts, 64 if tier == "quick" else 192)
+    out = cons.chunk(ts, 64 if tier == "quick" else 192)
+    # the same array types DECLARED as classes (class statement with _itemtype/_shape/_order "C", "F", tuple or absent)
+    # instead of made by indexing: all level-1 arrays + the level-2/3 types that contain arrays (quick: a third of them)
+    decl = [t for t in ts if any(x[0] == "A" for x in xt.subtypes(t))]
+    if tier == "quick":
+        decl = [t for t in decl if t[0] == "A" and t[1][0] in ("S", "Str")] + [t for t in decl if not (t[0] == "A" and t[1][0] in ("S", "Str"))][::3]
+    out += [("subclass", c) for c in cons.chunk(decl, 16 if tier == "quick" else 48)]
+    return out
 
 
 def judge(o, vmode, res, seen):
@@ -60,6 +67,7 @@ def judge(o, vmode, res, seen):
     t = o.t
     cid = cons.case_id(t, vmode, o.form, o.pname)
     f = cons.feats(t, vmode, o.form, o.pname)
+    cid["decl"] = f["decl"] = xt.DECL[0]
     if o.error is not None:
         res.outcomes["construct-raises"] += 1
         return common.violation("C01.construct", "raises:" + common.exc_failure(o.error), f, cid, repr(o.error))
@@ -91,11 +99,20 @@ def _size_of(obj):
     return int(s)
 
 
+DECL_FORMS = ["py", "nd", "ndF", "xobj-other", "cap", "len"]
+
+
 def run_shard(types, tier, seed):
     res = common.ShardResult()
     seen = set()
     pf = places_for(tier)
-    for t, vmode, v, form, pname in cons.enumerate_cases(types, cons.VMODES, FORMS, pf):
+    forms = FORMS
+    if isinstance(types, tuple) and types[0] == "subclass":
+        xt.DECL[0] = "subclass"  # this process only (one forked child per shard)
+        types, forms = types[1], DECL_FORMS
+        pf0 = pf
+        pf = lambda t, form: pf0(t, form)[:2]
+    for t, vmode, v, form, pname in cons.enumerate_cases(types, cons.VMODES, forms, pf):
         res.cases += 1
         try:
             o = cons.execute(t, v, form, pname, seed)
@@ -117,6 +134,7 @@ def run_shard(types, tier, seed):
 
 def replay(case):
     t = xt.retuple(case["type"])
+    xt.DECL[0] = case.get("decl", "index")
     v = xt.gen(t, case["vmode"])
     res = common.ShardResult()
     o = cons.execute(t, v, case["form"], case["place"], 0)
